@@ -2747,6 +2747,11 @@ class GraphEmbed(Decomposition):
             :math:`|A-A^T| <` tol
     """
 
+    def merge(self, other):
+        # Decomposition.merge multiplies the matrices of the two operations, which is the
+        # composition rule for unitaries and symplectic matrices but not for adjacency matrices
+        raise MergeFailure("Graph embeddings cannot be merged.")
+
     def __init__(self, A, mean_photon_per_mode=1.0, make_traceless=False, tol=1e-6):
         super().__init__([A])
         self.ns = A.shape[0]
@@ -2809,6 +2814,11 @@ class BipartiteGraphEmbed(Decomposition):
         tol (float): the tolerance used when checking if the input matrix is symmetric:
             :math:`|A-A^T| <` tol
     """
+
+    def merge(self, other):
+        # Decomposition.merge multiplies the matrices of the two operations, which is the
+        # composition rule for unitaries and symplectic matrices but not for adjacency matrices
+        raise MergeFailure("Graph embeddings cannot be merged.")
 
     def __init__(self, A, mean_photon_per_mode=1.0, edges=False, drop_identity=True, tol=1e-6):
         self._check_p0(A)
